@@ -7,9 +7,9 @@ Mapping (trace record -> op), in trace order:
            (`on_processed_packet` is the last thing the space does with a packet): after every
            ack_range_received / packet_lost event that follows the rxp record at the same virtual time.
   ev recovery:ack_range_received (one per range of a received ACK frame, in frame order; each is one
-        `AckManager::on_packet_ack(range)`) -> `acked <lo-hi,...>` (consecutive events are grouped)
+        `AckManager::on_packet_ack(range)`) -> `acked <lo-hi,...> <t>` (consecutive events are grouped)
   ev recovery:packet_lost (each is one `on_packet_loss(pn..=pn)`; the calls are made in the same order just
-        before the events are published) -> `lost <pn,...>`
+        before the events are published) -> `lost <pn,...> <t>`
   txp + the transport:packet_sent event that follows it (transmission mode)
         -> `tx <t> <own pn> <ack_eliciting> <ACK ranges, largest first | -> <mode n|p|m|v>`
   ev connectivity:connection_closed / an own CONNECTION_CLOSE frame -> the op stream of that endpoint ends
@@ -44,15 +44,16 @@ def ops(tr, ep, space="app"):
     pending = None          # (t, op line, rec) of the packet being processed
     acked = []              # ranges of the ACK frame(s) being processed
     lost = []
+    ev_t = 0                # time of the events being grouped
     conn = None
 
     def flush_events():
         nonlocal acked, lost
         if acked:
-            out.append("acked " + ",".join(f"{lo}-{hi}" for lo, hi in acked)); meta.append(None)
+            out.append("acked " + ",".join(f"{lo}-{hi}" for lo, hi in acked) + f" {ev_t}"); meta.append(None)
             acked = []
         if lost:
-            out.append("lost " + ",".join(str(p) for p in lost)); meta.append(None)
+            out.append("lost " + ",".join(str(p) for p in lost) + f" {ev_t}"); meta.append(None)
             lost = []
 
     def flush_rx():
@@ -86,16 +87,18 @@ def ops(tr, ep, space="app"):
                 if m and g and m.group(1) == hdr:
                     if pending is not None and r.t > pending[0]:
                         flush_rx()
-                    if lost:
+                    if lost or (acked and ev_t != r.t):
                         flush_events()
+                    ev_t = r.t
                     acked.append((int(g.group(1)), int(g.group(2))))
             elif r.name == "recovery:packet_lost":
                 m = LOST_RE.search(r.text)
                 if m and m.group(1) == hdr:
                     if pending is not None and r.t > pending[0]:
                         flush_rx()
-                    if acked:
+                    if acked or (lost and ev_t != r.t):
                         flush_events()
+                    ev_t = r.t
                     lost.append(int(m.group(2)))
             continue
         if r.space != space:
